@@ -552,6 +552,16 @@ int run_check(const std::string& prop, const std::string& tier, uint64_t seed, i
     return rc;
 }
 
+// debug aid: execute the same plan twice in this process and show the first differing log line
+int run_twice(const std::string& scenario, uint64_t seed, const std::string& rep, int view) {
+    Replicas reps; std::string err; if (!reps.load(replica_dir(), err)) { fprintf(stderr, "replica load failed: %s\n", err.c_str()); return 2; }
+    Scenario* sc = find_scenario(scenario); if (!sc) return 2;
+    Plan plan = sc->generate(seed, g_cli_knobs); plan.scenario = scenario;
+    RunResult a = execute_plan(plan, reps, rep, view, true, "", false), b = execute_plan(plan, reps, rep, view, true, "", false);
+    if (a.fingerprint == b.fingerprint) { printf("same fingerprint %s\n", a.fingerprint.c_str()); return 0; }
+    printf("%s\n", first_log_difference(a, b).c_str()); return 1;
+}
+
 int run_one(const std::string& scenario, uint64_t seed, const std::string& rep, int view, bool verbose) {
     Replicas reps; std::string err; if (!reps.load(replica_dir(), err)) { fprintf(stderr, "replica load failed: %s\n", err.c_str()); return 2; }
     Scenario* sc = find_scenario(scenario); if (!sc) { fprintf(stderr, "no scenario %s\n", scenario.c_str()); return 2; }
